@@ -234,6 +234,25 @@ def random_step(R: Draw, g: DocGen, doc: dict, n: int) -> dict:
         a = pos()
         b = pos() if wild else R.int(a, min(n, a + R.int(0, 8)))
         sl = rand_slice(R, g) if R.bool(0.7) else closed_slice(R, g)
+        if rs.mark_names and R.bool(0.12):
+            # marked text dropped into a textblock that forbids (some of) its marks: the step has to fail cleanly
+            from ..ref import marks as rm
+            from ..ref import resolve as RR
+
+            spots = [
+                (k_, s_)
+                for k_, s_, _par, _i, _d in RR.all_nodes(RR.N(doc, rs))
+                if rs.textblock.get(k_.t) and any(not rs.allows_mark(k_.t, m) for m in rs.mark_names)
+            ]
+            if spots:
+                k_, s_ = R.choice(spots)
+                ms: list = []
+                for m in R.shuffle(list(rs.mark_names)):
+                    if not rs.allows_mark(k_.t, m) or R.bool(0.3):
+                        ms = rm.ref_add(rs, g.mark(R, m), ms)
+                a = R.int(s_ + 1, s_ + k_.size - 1)
+                b = R.int(a, min(s_ + k_.size - 1, a + 2))
+                return {"k": k, "from": a, "to": b, "slice": {"c": [P.mk("text", {}, None, ms, g.text(R))], "os": 0, "oe": 0}, "structure": False}
         if R.bool(0.3):
             # both ends on structural landmarks (across sibling nodes, from a node's start to behind a later child),
             # often a plain deletion: the joined halves have to be valid together
